@@ -68,7 +68,29 @@ type ZTimes struct {
 func H_C10_positions() {
 	vArith(1)
 	t, sub := vInstant()
-	switch vChoice("where", 4) {
+	switch vChoice("where", 6) {
+	case 4:
+		// a reader may return fewer octets than asked for: one octet per Read call
+		vAssume(!t.IsZero())
+		bs, err := ToBytes(t, nil)
+		vAssert("encode-noerr", err == nil)
+		out, err := NewDecoder(nil, nil).ReadFrom(&vDribbleReader{vCountingReader{b: bs}})
+		g, ok := out.(time.Time)
+		vAssert("decode", err == nil && ok)
+		vCheckInstant("dribble", t, g, sub)
+	case 5:
+		// the date sits across the buffered reader's 4096-octet refill boundary
+		vAssume(!t.IsZero())
+		pad := make([]byte, 4087-2*vChoice("shift", 3))
+		v := []interface{}{pad, t}
+		bs, err := ToBytes(v, nil)
+		vAssert("encode-noerr", err == nil)
+		out, err := ToObject(bs, nil)
+		l, ok := out.([]interface{})
+		vAssert("decode", err == nil && ok && len(l) == 2)
+		g, ok := l[1].(time.Time)
+		vAssert("decode-time", ok)
+		vCheckInstant("boundary", t, g, sub)
 	case 0:
 		v := &ZTimes{A: 1, T: t}
 		tm, nm := vExtract(v)
